@@ -641,6 +641,18 @@ int main(int argc, char **argv)
         vh::stat("bigdepth_pairs_skipped_superlinear", skippedSlow);
         vh::stat("bigdepth_items", long(work.size()));
         runStage("s2", work, 1);
+        // thorough only: the generic-element passthrough is super-linear in depth, so reaching a depth where its recursion exhausts
+        // the stack takes minutes of CPU in the sanitizer build; one targeted run with a large budget (release build: SIGSEGV at the
+        // same depth with the default 8 MB stack)
+        if (!quick) {
+            std::vector<Work> deepWork;
+            for (size_t p = 0; p < g_table.size(); p++)
+                if (g_table[p].name == "QXmppElement" && slow.count("QXmppElement")) deepWork.push_back({ W_PROBE, int(templates().size()) - 1, -1, -1, int(p), SH_DEPTH, 6000 });
+            int saved = g_cfg.cpuBudget;
+            g_cfg.cpuBudget = 600;
+            runStage("s2b", deepWork, 1);
+            g_cfg.cpuBudget = saved;
+        }
     }
     // ---- stage 3: mutations (kinds dealt round-robin so every kind gets an equal share)
     if (g_cfg.mutations) {
